@@ -395,6 +395,60 @@ def _short(o):
     return [[x[0].decode('utf-8', 'replace')[:160], list(x[1]), list(map(list, x[3]))] for x in o]
 
 
+def _ns_edits(a):
+    for px in PFX:
+        yield ('nsdel', px)
+        for u in URIS:
+            yield ('nsset', px, u)
+    for i in range(len(_nsrules(a))):
+        yield ('delns', i)
+        for px in PFX:
+            yield ('prefix', i, px)
+    for t in range(len(TEXTS)):
+        yield ('text', t)
+
+
+def detached_probe(res, hist, j, edit):
+    """style rule j of A is taken out of A; then A's namespaces are edited: the rule, no longer part of A, is not touched,
+    and put into B it still denotes the pairs it denoted (depth-2 probe from every state; its target states are not expanded)"""
+    case = {'kind': 'detached', 'history': [list(h) for h in hist], 'rule': j, 'edit': list(edit)}
+    try:
+        with guard.watchdog(20):
+            a, b, _ = build(hist)
+            rule = _strules(a)[j]
+            pairs0 = tuple(pairs(s) for s in rule.selectorList)
+            try:
+                a.deleteRule(rule)
+            except xml.dom.DOMException:
+                return
+            text1 = rule.cssText
+            out = apply(a, b, edit)
+            text2 = rule.cssText
+            pairs2 = tuple(pairs(s) for s in rule.selectorList)
+            res.transitions += 1
+            res.evaluations += 1
+            res.clauses['C15.detached'] += 1
+            res.outcomes.add(h64(('detached', edit[0], out)))
+            if text2 != text1 or pairs2 != pairs0:
+                res.violation('C15.detached', f'edit-of-the-old-sheet-changes-a-rule-that-left-it|{edit[0]}|{out[0]}', case, [text1, pairs0], [text2, pairs2],
+                              size=len(hist) * 1000 + len(jdump(case)))
+                return
+            try:
+                b.add(rule)
+            except xml.dom.DOMException:
+                return
+            moved = tuple(pairs(s) for s in rule.selectorList)
+            if _prefixed_only((moved,)) != _prefixed_only((pairs0,)):
+                res.violation('C15.detached', f'moved-after-edit-denotes-other-pair|{edit[0]}', case, pairs0, moved, size=len(hist) * 1000 + len(jdump(case)))
+            rp = reparse(res, b)
+            if rp:
+                res.violation(rp[0], rp[1] + '|moved-after-edit-of-the-old-sheet', case, {'dom': rp[2]}, {'reparsed': rp[3]}, size=len(hist) * 1000 + len(jdump(case)))
+    except guard.Timeout:
+        res.violation('C15.terminates', 'timeout|detached', case, 'answer', 'timeout')
+    except Exception as e:
+        res.violation('C15.noraise', f'{guard.crash_site(e)}|detached', case, 'DOMException or success', repr(e)[:300], size=len(hist))
+
+
 def expand(batch, tier, seed):
     res = Result(seed)
     for hist in batch:
@@ -412,6 +466,9 @@ def expand(batch, tier, seed):
             r = step(res, hist, op, tier)
             if r is not None:
                 res.succ.append((r[0], hist + (op,), r[1]))
+        for j in range(len(_strules(a))):
+            for edit in list(_ns_edits(a)):
+                detached_probe(res, hist, j, edit)
         res.sample({'kind': 'history', 'history': [list(h) for h in hist]})
     guard.pristine()
     return res
@@ -434,7 +491,9 @@ def run(ctx):
 def replay(case, tier, seed):
     res = Result(seed)
     hist = tuple(tuple(h) for h in case['history'])
-    if len(hist) >= 2:
+    if case.get('kind') == 'detached':
+        detached_probe(res, hist, case['rule'], tuple(case['edit']))
+    elif len(hist) >= 2:
         step(res, hist[:-1], hist[-1], tier)
     guard.pristine()
     return res
